@@ -42,7 +42,11 @@ pub fn observe(r: &Request, names: &[String]) -> Obs {
     }
 }
 
-fn parse_with(wire: &[u8], sizes: Vec<usize>, peer: std::net::SocketAddr) -> Result<Result<(Request, usize), String>, String> {
+/// parses `wire` delivered in reads of the given sizes: Ok(Ok((request, bytes consumed))) / Ok(Err(error text)) / Err(panic message)
+pub type ParseFn<'a> = &'a (dyn Fn(&[u8], Vec<usize>, std::net::SocketAddr) -> Result<Result<(Request, usize), String>, String> + Sync);
+
+#[cfg(not(hvt))]
+pub fn parse_with(wire: &[u8], sizes: Vec<usize>, peer: std::net::SocketAddr) -> Result<Result<(Request, usize), String>, String> {
     catch(|| {
         let mut rd = PlanReader::new(wire.to_vec(), sizes);
         match Request::from_stream(&mut rd, peer) {
@@ -194,7 +198,12 @@ fn names_zip<'a>(lists: &'a [(String, Vec<String>)], firsts: &'a [Option<String>
     lists.iter().map(|(n, _)| n).zip(firsts.iter())
 }
 
+#[cfg(not(hvt))]
 pub fn check(spec: &ReqSpec, plan_seed: u64, ctx: Option<&Ctx>) -> Vec<Fail> {
+    check_with(spec, plan_seed, ctx, &parse_with)
+}
+
+pub fn check_with(spec: &ReqSpec, plan_seed: u64, ctx: Option<&Ctx>, parse_with: ParseFn) -> Vec<Fail> {
     let wire = spec.render();
     let peer = spec.peer_addr();
     let names: Vec<String> = spec.header_lists().into_iter().map(|(n, _)| n).collect();
@@ -335,7 +344,7 @@ pub fn check(spec: &ReqSpec, plan_seed: u64, ctx: Option<&Ctx>) -> Vec<Fail> {
     fails
 }
 
-fn nontrivial(spec: &ReqSpec) -> (bool, Vec<&'static str>) {
+pub fn nontrivial(spec: &ReqSpec) -> (bool, Vec<&'static str>) {
     let mut labels = Vec::new();
     if spec.has_repeated_name() {
         labels.push("repeated-name");
@@ -364,10 +373,11 @@ fn nontrivial(spec: &ReqSpec) -> (bool, Vec<&'static str>) {
     (!labels.is_empty() && labels != ["query"], labels)
 }
 
-fn spec_json(spec: &ReqSpec, seed: u64) -> J {
+pub fn spec_json(spec: &ReqSpec, seed: u64) -> J {
     json!({"spec": serde_json::to_value(spec).unwrap(), "plan_seed": seed.to_string(), "wire": show(&spec.render())})
 }
 
+#[cfg(not(hvt))]
 pub fn run(ctx: &Ctx) {
     ctx.rule("ReqSpec generated from the supported HTTP/1.x grammar, rendered to bytes, parsed under read plans {whole, byte-wise, every single split (<=300 bytes) or 64 biased splits, 3 random multi-splits}; oracles: faithful to the spec, equal under every plan, serialisation accepted by the reference parser and re-parsed equal; non-trivial = repeated header name, >20 headers, non-empty body, X-Forwarded-For, Cookie or non-ASCII value; distinct by rendered bytes");
     ctx.assume("in-memory scripted reader gives exact control over read boundaries; reference request parser in common/http.rs is a correct strict RFC 7230 parser for the supported subset");
@@ -392,6 +402,7 @@ pub fn run(ctx: &Ctx) {
     });
 }
 
+#[cfg(not(hvt))]
 pub fn replay(_ctx: &Ctx, _kind: &str, case: &J) -> Vec<Fail> {
     let spec: ReqSpec = match serde_json::from_value(case["spec"].clone()) {
         Ok(s) => s,
